@@ -86,7 +86,59 @@ def calm_transfer(S, cid, name, content, now, opts=b''):
     return 'did not finish'
 
 
+REAL = r'''
+import random
+rng = random.Random(%(seed)d)
+with tempfile.TemporaryDirectory() as d:
+    data = bytes(rng.getrandbits(8) for _ in range(1300))
+    open(os.path.join(d, 'ok.bin'), 'wb').write(data)
+    srv, th = start(d)
+    hostile = [b'', b'\0', b'\1', b'\5', b'\xff', b'\0\0', b'\0\5', b'\0\1', b'\0\2', b'\0\3', b'\0\4', b'\0\6', b'\0\7', b'\xff\xff',
+               b'\0\1\0', b'\0\1a\0', b'\0\1a\0octet', b'\0\1\xff\xfe\0octet\0', b'\0\2x\0octet\0', b'\0\3\0\1data', b'\0\4\0\1',
+               b'\0\5\0\1gone\0', b'\0\5\0\5', b'\0\6blksize\0' + b'8\0', b'\0\1ok.bin\0octet\0blksize\0' + b'7\0',
+               b'\0\1ok.bin\0octet\0timeout\0nan\0', b'\0\1' + b'a' * 2000 + b'\0octet\0', bytes(65507), b'\0\1' + bytes(range(1, 256)) + b'\0octet\0']
+    hostile += [bytes(rng.getrandbits(8) for _ in range(rng.choice([1, 1, 2, 3, 5, 9, 40]))) for _ in range(%(extra)d)]
+    res = {'bad': [], 'sent': 0}
+    for i, h in enumerate(hostile):
+        c = Client(srv.server_address, 0.3)
+        try:
+            c.s.sendto(h, srv.server_address)
+        except OSError:
+            c.close(); continue
+        r = c.recv(); c.close()
+        res['sent'] += 1
+        if r is not None and r[0][:2] != b'\0\5' and not (h[:2] == b'\0\1' and r[0][:2] in (b'\0\3', b'\0\6')):
+            res['bad'].append(dict(datagram=h[:40].hex(), reply=r[0][:40].hex(), why='reply is not an ERROR packet'))
+        if i %% 4 == 3 or len(h) <= 2:
+            c = Client(srv.server_address, 2.0); c.rrq(b'ok.bin'); c.run()
+            if not (c.finished and c.buf == data) or not th.is_alive():
+                res['bad'].append(dict(datagram=h[:40].hex(), length=len(h), why='after this datagram a valid request is no longer served',
+                                       listener_alive=th.is_alive(), got=len(c.buf)))
+                c.close()
+                break
+            c.close()
+    srv.shutdown(); srv.server_close()
+print(json.dumps(res))
+'''
+
+
+def real_hostile(ctx):
+    """real sockets and threads: hostile datagrams to the listening port of a real server (socketserver's own
+    verify_request / handle_error path included), a valid transfer after every few of them"""
+    import realserver
+    res = realserver.run_script(REAL % dict(seed=ctx.seed, extra=120 if ctx.thorough else 30), timeout=240)
+    ctx.case(('real-hostile',), True, 'real-udp')
+    if res.get('crash'):
+        ctx.violation('tftpd.real/harness-crash', f'real-UDP scenario crashed: {res.get("stderr", "")[-300:]}', res)
+        return
+    ctx.stat('real-hostile-datagrams', res.get('sent', 0))
+    if res['bad']:
+        b = res['bad'][0]
+        ctx.violation('tftpd.real/hostile-datagram', f'real server, datagram {b.get("datagram")} ({b.get("length", "?")} bytes): {b["why"]}', dict(result=res))
+
+
 def run(ctx, build):
+    real_hostile(ctx)
     R = ctx.try_runner('Tftp')
     rng = ctx.rng
     nsess = 5000 if ctx.thorough else 80
